@@ -603,6 +603,29 @@ func laws20(c case20) (vs []verdict20, info map[string]string) {
 	default:
 		info["idempotence"] = "checked"
 	}
+	// --- context independence: a document inside a stream is formatted exactly as when it is alone
+	if xs := splitDocs20(c.Yaml); len(xs) > 1 && len(xs) == len(nodes) {
+		if ys := splitDocs20(y); len(ys) == len(xs) {
+			for i := range xs {
+				yi, clsi, msgi := format20(xs[i], c.UseSchema)
+				if clsi != ClsOk {
+					vs = append(vs, verdict20{"stream_independent", "stream/alone-fails",
+						fmt.Sprintf("document %d formats inside the stream but not alone (%s): %s", i, clsi, msgi)})
+					continue
+				}
+				if strings.TrimRight(yi, "\n") != strings.TrimRight(ys[i], "\n") {
+					pk, pa := "", ""
+					if i > 0 {
+						pk, pa, _ = typeMeta20(nodes[i-1])
+					}
+					vs = append(vs, verdict20{"stream_independent", "stream/context-dependent",
+						fmt.Sprintf("document %d (preceded by %s %s) is formatted differently inside the stream than alone; %s",
+							i, pa, pk, firstDiff20(yi, ys[i]))})
+				}
+			}
+			info["stream"] = "checked"
+		}
+	}
 	// --- canonical order: in a formatted document every mapping is sorted for Less and every whitelisted
 	// list for its sort key (comparators re-implemented here from yaml.FieldOrder)
 	if outNodes, e := read20(y, true); e == nil {
@@ -657,9 +680,10 @@ func laws20(c case20) (vs []verdict20, info map[string]string) {
 				if ok && wlOn20(kind, api) && !fmtOptOut20(nodes[i]) {
 					xv, yv = normWl20(xv, ""), normWl20(yv, "")
 				}
-				if c.UseSchema {
+				if c.UseSchema && ok && openapi.SchemaForResourceType(kyaml.TypeMeta{APIVersion: api, Kind: kind}) != nil {
 					continue // scalar types follow the schema by design: see schemaLaw20
 				}
+				// (a document whose own type has no schema must keep its typed value under UseSchema too)
 				if docDupKeys20(nodes[i]) {
 					// the typed value of a mapping with duplicate keys is "last one wins": not a function of
 					// the pair multiset; such documents are covered by the pair-multiset law below
@@ -849,12 +873,12 @@ func schemaLaw20(c case20, y string) (vs []verdict20, nStr, nInt int) {
 						vs = append(vs, verdict20{"schema_quote", "schema/string-retyped",
 							fmt.Sprintf("%s: string-typed scalar %q is read back as %#v", sp.path, x.Value, site.val)})
 					}
-				case "integer":
+				case "integer", "boolean", "number":
 					nInt++
 					if kyaml.IsValueNonString(x.Value) {
 						if _, isStr := site.val.(string); isStr {
 							vs = append(vs, verdict20{"schema_quote", "schema/number-left-quoted",
-								fmt.Sprintf("%s: integer-typed scalar %q is read back as the string %#v", sp.path, x.Value, site.val)})
+								fmt.Sprintf("%s: %s-typed scalar %q is read back as the string %#v", sp.path, sp.typ, x.Value, site.val)})
 						}
 					}
 				}
@@ -874,11 +898,18 @@ func schemaSites20(kind, api string) []schemaSite20 {
 	switch {
 	case kind == "ConfigMap" && api == "v1":
 		sites = append(sites, schemaSite20{"data.*", "string"})
+	case kind == "Service" && api == "v1":
+		sites = append(sites, schemaSite20{"spec.ports.[].port", "integer"}, schemaSite20{"spec.ports.[].name", "string"},
+			schemaSite20{"spec.publishNotReadyAddresses", "boolean"}, schemaSite20{"spec.sessionAffinity", "string"})
 	case kind == "Secret" && api == "v1":
 		sites = append(sites, schemaSite20{"stringData.*", "string"})
 	case (kind == "Deployment" || kind == "StatefulSet") && api == "apps/v1":
 		sites = append(sites,
 			schemaSite20{"spec.replicas", "integer"},
+			schemaSite20{"spec.paused", "boolean"},
+			schemaSite20{"spec.minReadySeconds", "integer"},
+			schemaSite20{"spec.template.spec.hostNetwork", "boolean"},
+			schemaSite20{"spec.template.spec.containers.[].tty", "boolean"},
 			schemaSite20{"spec.template.spec.containers.[].image", "string"},
 			schemaSite20{"spec.template.spec.containers.[].name", "string"},
 			schemaSite20{"spec.template.spec.containers.[].args.[]", "string"},
@@ -1050,6 +1081,7 @@ type result20 struct {
 	facts      facts20
 	skipWhy    string
 	writtenComments           bool
+	twinNeighbours            bool // consecutive documents: same kind, different apiVersion, exactly one with a schema
 	schemaFound               bool
 	quotedBySchema, unquotedBySchema, retaggedBySchema int
 }
@@ -1107,6 +1139,17 @@ func runImpl20(c case20, withWritten bool) result20 {
 		}
 	}
 	if c.UseSchema {
+		for i := 1; i < len(nodes); i++ {
+			k1, a1, ok1 := typeMeta20(nodes[i-1])
+			k2, a2, ok2 := typeMeta20(nodes[i])
+			if ok1 && ok2 && k1 == k2 && a1 != a2 {
+				s1 := openapi.SchemaForResourceType(kyaml.TypeMeta{APIVersion: a1, Kind: k1}) != nil
+				s2 := openapi.SchemaForResourceType(kyaml.TypeMeta{APIVersion: a2, Kind: k2}) != nil
+				if s1 != s2 {
+					res.twinNeighbours = true
+				}
+			}
+		}
 		for _, n := range nodes {
 			walk(n.YNode())
 			if kind, api, ok := typeMeta20(n); ok && openapi.SchemaForResourceType(kyaml.TypeMeta{APIVersion: api, Kind: kind}) != nil {
@@ -1288,6 +1331,7 @@ func runOne20(r *Run, c case20, toModel bool, src string) {
 	}
 	flag("empty_metadata", f.emptyMeta)
 	if c.UseSchema {
+		flag("same_kind_other_group_neighbours", res.twinNeighbours)
 		flag("schema_found", res.schemaFound)
 		flag("schema_quoted_a_scalar", res.quotedBySchema > 0)
 		flag("schema_unquoted_a_scalar", res.unquotedBySchema > 0)
@@ -1318,6 +1362,9 @@ func runOne20(r *Run, c case20, toModel bool, src string) {
 	}
 	if v, ok := info["order"]; ok {
 		r.Count("order_oracle", v)
+	}
+	if v, ok := info["stream"]; ok {
+		r.Count("stream_oracle", v)
 	}
 	for _, k := range []string{"schema_sites_string", "schema_sites_integer"} {
 		if v, ok := info[k]; ok {
